@@ -55,6 +55,16 @@ var c16Scens = []c16Scen{
 	{Label: "looped-marked-element-in-component-first-included-with-empty-list", Files: map[string]string{
 		"p.vuego": `<template include="c.vuego" :r="empty"></template><template include="c.vuego" :r="items"></template><template include="c.vuego" :r="items"></template>`,
 		"c.vuego": `<section><b v-for="x in r" v-once data-m="m1">{{ x }}</b><i data-m="w1"></i></section>`}, WantOther: map[string]int{"m1": 1, "w1": 3}},
+	// v-once written on shorthand component tags of the rendered template itself: two different tags are two marked elements
+	{Label: "two-shorthand-component-tags-marked", Files: map[string]string{
+		"p.vuego":                          `<main><widget-scripts v-once></widget-scripts><i data-m="w1"></i><widget-styles v-once></widget-styles></main>`,
+		"components/WidgetScripts.vuego": `<script data-m="m1">var w;</script>`, "components/WidgetStyles.vuego": `<style data-m="m2">.w{}</style>`}, WantOther: map[string]int{"m1": 1, "m2": 1, "w1": 1}},
+	{Label: "two-shorthand-component-tags-marked-in-loop", Files: map[string]string{
+		"p.vuego":                          `<div v-for="i in items"><widget-scripts v-once></widget-scripts><widget-styles v-once></widget-styles><i data-m="w1"></i></div>`,
+		"components/WidgetScripts.vuego": `<script data-m="m1">var w;</script>`, "components/WidgetStyles.vuego": `<style data-m="m2">.w{}</style>`}, WantOther: map[string]int{"m1": 1, "m2": 1, "w1": 3}},
+	{Label: "shorthand-and-include-spelling-of-two-components-marked", Files: map[string]string{
+		"p.vuego":                          `<div v-for="i in items"><widget-scripts v-once></widget-scripts><template include="components/WidgetStyles.vuego" v-once></template><i data-m="w1"></i></div>`,
+		"components/WidgetScripts.vuego": `<script data-m="m1">var w;</script>`, "components/WidgetStyles.vuego": `<style data-m="m2">.w{}</style>`}, WantOther: map[string]int{"m1": 1, "m2": 1, "w1": 3}},
 }
 
 func c16NScen() int { return len(c16Scens) }
